@@ -51,7 +51,9 @@ type World struct {
 	// Sched, if set, is called at the start of every operation with the
 	// process that issues it: a cooperative scheduler parks the calling
 	// goroutine there until it is that process's turn again.
-	Sched    func(p *Proc)
+	Sched func(p *Proc)
+	// OnCall is what a fault of kind "call" invokes.
+	OnCall   func(arg string)
 	Files    map[string]*Inode
 	Dirs     map[string]bool
 	ReadOnly map[string]bool // directories in which nothing can be created
